@@ -143,15 +143,19 @@ def _curve_cases(draw, tier):
     c["read_views"] = draw(st.booleans())
     c["scale_exp"] = draw(st.sampled_from([0, 0, 0, -30, 12]))
     c["second"] = draw(_polygon(c["p"], c["p"]))          # another polygon of the same degree for the second round
+    # the segment's parameter interval: [0, 1], or any other one on a curve created with normalize_kv=False
+    c["dom"] = draw(st.sampled_from([None, None, None, [0.25, 0.75], [2.0, 5.0], [-1.0, 0.5], [0.0, 4.0]]))
     return c
 
 
-def _bezier_curve(p, pts, homog):
+def _bezier_curve(p, pts, homog, dom=None):
     from geomdl import BSpline, NURBS
-    crv = NURBS.Curve() if homog else BSpline.Curve()
+    kw = {"normalize_kv": False} if dom else {}
+    crv = NURBS.Curve(**kw) if homog else BSpline.Curve(**kw)
     crv.degree = p
     crv.set_ctrlpts([list(q) for q in pts])
-    crv.knotvector = [0.0] * (p + 1) + [1.0] * (p + 1)
+    a, b = dom or (0.0, 1.0)
+    crv.knotvector = [a] * (p + 1) + [b] * (p + 1)
     return crv
 
 
@@ -176,15 +180,17 @@ def check_curve(case, ctx):
     if second["homog"] != homog or len(second["pts"][0]) != len(case["pts"][0]):
         second = {"pts": [[c * 0.5 + 1.0 for c in q[:-1]] + [q[-1]] if homog else [c * 0.5 + 1.0 for c in q] for q in case["pts"]][::-1], "homog": homog}
     crv = None
+    dom = case.get("dom")
+    ctx.label("segment-on-another-interval-than-[0,1]", bool(dom))
     for rnd, poly in enumerate((case, second)):
         pts = _scaled_poly(case, poly["pts"])
         if crv is None:
-            crv = _bezier_curve(p, pts, homog)
+            crv = _bezier_curve(p, pts, homog, dom)
         else:
             # second round on the SAME object: back to the original degree with other control points
             crv.degree = p
             crv.set_ctrlpts([list(q) for q in pts])
-            crv.knotvector = [0.0] * (p + 1) + [1.0] * (p + 1)
+            crv.knotvector = [(dom or (0.0, 1.0))[0]] * (p + 1) + [(dom or (0.0, 1.0))[1]] * (p + 1)
         if case["read_views"]:
             _ = [list(q) for q in crv.ctrlpts]
             if homog:
@@ -196,7 +202,9 @@ def check_curve(case, ctx):
             twin, crv = crv, copy.deepcopy(crv)
         crv.sample_size = 5
         pts_before = [list(q) for q in crv.evalpts]
+        dom_before = tuple(crv.domain)
         operations.degree_operations(crv, [t])
+        ctx.check(tuple(crv.domain) == dom_before, "curve-domain-changed", "degree_operations(+%d) changed the parameter interval of the segment from %r to %r" % (t, dom_before, tuple(crv.domain)))
         crv.sample_size = 5
         pts_after = [list(q) for q in crv.evalpts]
         bigc = max(abs(c) for q in pts_before for c in q) if pts_before else 1.0
